@@ -100,3 +100,28 @@ package js_printer
 // has no side effect (ECMA-262 13.14.1: the test IS evaluated before a branch is chosen): `(f() || ENABLED) ? a : b`
 // with the cross-module constant ENABLED = true has a known outcome but still calls f().
 //@ guarded late-conditional-fold-keeps-test-side-effects C03: func=(*printer).lateConstantFoldUnaryOrBinaryOrIfExpr ; in=js_printer ; site=call lateConstantFoldUnaryOrBinaryOrIfExpr ; when-arg=1:*.Yes OR *.NoOrNil OR *.No ; scenario=late_conditional_fold_drops_call ; require=true:call ToBooleanWithSideEffects(*)#1==1 && true:call ToBooleanWithSideEffects(*)#2
+
+// C01 (parentheses that the grammar needs at the START of a statement / export default / arrow body / for-of
+// initialiser are decided by comparing those marks with the current output length): when a comment is printed in front
+// of an expression the marks that pointed at the old end of the output are moved to the new end. Every mark that
+// saveExprStartFlags reports must be moved by restoreExprStartFlags: an arrow body `() => /* @__PURE__ */ ({a:1}).f()`
+// otherwise loses its parentheses and `{` starts a block.
+//@ func (*printer).restoreExprStartFlags
+//@   arith bv
+//@   prop C01
+//@   opt scenario pure_comment_arrow_body_object
+//@   requires p != nil
+//@   ensures stmt-start-moved: (flags & stmtStartFlag) != 0 ==> p.stmtStart == len(p.js)
+//@   ensures export-default-start-moved: (flags & exportDefaultStartFlag) != 0 ==> p.exportDefaultStart == len(p.js)
+//@   ensures arrow-expr-start-moved: (flags & arrowExprStartFlag) != 0 ==> p.arrowExprStart == len(p.js)
+//@   ensures for-of-init-start-moved: (flags & forOfInitStartFlag) != 0 ==> p.forOfInitStart == len(p.js)
+// ... and saveExprStartFlags reports a mark exactly when it points at the current end of the output.
+//@ func (*printer).saveExprStartFlags
+//@   arith bv
+//@   prop C01
+//@   requires p != nil
+//@   modifies nothing
+//@   ensures stmt-start-reported: ((result & stmtStartFlag) != 0) == (p.stmtStart == len(p.js))
+//@   ensures export-default-start-reported: ((result & exportDefaultStartFlag) != 0) == (p.exportDefaultStart == len(p.js))
+//@   ensures arrow-expr-start-reported: ((result & arrowExprStartFlag) != 0) == (p.arrowExprStart == len(p.js))
+//@   ensures for-of-init-start-reported: ((result & forOfInitStartFlag) != 0) == (p.forOfInitStart == len(p.js))
